@@ -52,7 +52,9 @@ Cast == /\ IsEv("cast") /\ UNCHANGED decl
 
 (* no type at all (NULL) where a type is expected: ValueError, like type_of(NULL) *)
 NullType == IsEv("nulltype") /\ E.exc = "ValueError" /\ UNCHANGED decl
-Next == Reset \/ End \/ Decl \/ RtOk \/ RtTooMany \/ Look \/ Cast \/ NullType
+(* Type objects are not values to be exchanged (they carry their instances and cached answers): swap refuses them *)
+SwapTypes == IsEv("swaptypes") /\ E.exc = "TypeError" /\ UNCHANGED decl
+Next == Reset \/ End \/ Decl \/ RtOk \/ RtTooMany \/ Look \/ Cast \/ NullType \/ SwapTypes
 Spec == Init /\ [][Next]_vars
 Accepted == LET d == TLCGet("stats").diameter IN
             /\ PrintT(<<"TRACE_MATCHED", d - 1, Len(T)>>)
